@@ -322,28 +322,28 @@ def run(P):
     bodies = {n: b for n, b in P.bodies.items() if n.startswith(PRE)}
     pts = scanrun.alphabet_points(bodies, prefix=(PRE,))
     specs = {}
-    res = []
     jobs = list(OBLIGATIONS)
     for owned, fn in ((False, PRE + 'DataUrl::new'), (True, PRE + 'DataUrlBuf::new')):
         for valid in (True, False):
             jobs.append((f'{"owned" if owned else "borrowed"}-ctor-{"uri" if valid else "not-uri"}', fn, ('ctor', valid), [INPUT], make_claim_ctor(owned, valid),
                          f'{"DataUrlBuf" if owned else "DataUrl"}::new on an input that is {"a valid URI: Ok exactly for the documented shape, storing the text" + (" and its delimiters" if owned else "") if valid else "not a valid URI: Err handing the input back"}'))
+    # specifications first (shared by the forked workers)
     for key, fn, total, args, claim, what in jobs:
-        r = {'key': key, 'fn': fn, 'what': what, 'findings': [], 'stats': {}}
-        res.append(r)
-        if fn not in bodies:
-            r['findings'].append(('anchor', f'{fn} not found', None, None))
-            continue
-        extra = None
         if isinstance(total, tuple):
-            valid = total[1]
             if True not in specs:
                 specs[True] = build_spec(True, pts)
             if total not in specs:
-                specs[total] = uri_restricted(specs[True], pts) if valid else specs[True]
-            extra = ctor_summary(valid)
+                specs[total] = uri_restricted(specs[True], pts) if total[1] else specs[True]
         elif total not in specs:
             specs[total] = build_spec(total, pts)
+
+    def one(i):
+        key, fn, total, args, claim, what = jobs[i]
+        r = {'key': key, 'fn': fn, 'what': what, 'findings': [], 'stats': {}}
+        if fn not in bodies:
+            r['findings'].append(('anchor', f'{fn} not found', None, None))
+            return r
+        extra = ctor_summary(total[1]) if isinstance(total, tuple) else None
         bodies2 = bodies if extra is None else dict(bodies, **{n: b for n, b in P.bodies.items() if 'InvalidDataUrl' in n and '::from' in n})
         m = strscan.Machine(bodies2, specs[total], fn, args, lambda n: n.startswith(PRE), claim, extra_summary=extra)
         m.from_impl = from_impl if extra is not None else None
@@ -351,7 +351,7 @@ def run(P):
             raw = m.run()
         except Exception as e:      # fail closed
             r['findings'].append(('error', f'{type(e).__name__}: {e}', None, None))
-            continue
+            return r
         seen = set()
         for kind, msg, st, where in raw:
             sig = (kind, msg[:70])
@@ -359,7 +359,10 @@ def run(P):
                 continue
             seen.add(sig)
             pre, cont = m.witness(st) if st is not None else (b'', b'')
-            r['findings'].append((kind, msg, where, pre + cont))
+            r['findings'].append((kind, msg, where, (pre + cont)[:60]))
         r['stats'] = dict(m.stats)
         r['spec_states'] = specs[total].d.n
+        return r
+    from . import par
+    res = par.pmap(one, len(jobs))
     return res
